@@ -36,6 +36,10 @@ Section Inv.
     exists sf st', sts b (tr_from t) = Some sf /\ sts b (tr_to t) = Some st' /\ tr_to t <> 0 /\
                    forall c, In c (map core_of st') <-> tcore sf (tr_symbol t) c.
 
+  (* the symbol of a transition is what follows the dot of an item of its source *)
+  Definition sym_ok (b : builder) (t : transition) : Prop :=
+    exists sf it, sts b (tr_from t) = Some sf /\ In it sf /\ next_sym it = Some (tr_symbol t).
+
   Definition cov_item (b : builder) (i : nat) (it : item) (x : symbol) : Prop :=
     exists t st', In t (b_transitions b) /\ tr_from t = i /\ tr_symbol t = x /\
                   sts b (tr_to t) = Some st' /\ In (adv it) st'.
@@ -50,7 +54,8 @@ Section Inv.
     bi_det : forall t1 t2, In t1 (b_transitions b) -> In t2 (b_transitions b) ->
                            tr_from t1 = tr_from t2 -> tr_symbol t1 = tr_symbol t2 -> tr_to t1 = tr_to t2;
     bi_uniq : forall i j si sj, sts b i = Some si -> sts b j = Some sj -> same_cores si sj -> i = j;
-    bi_zero : exists st0, sts b 0 = Some st0 /\ In start_item st0 /\ forall it, In it st0 -> it_dot it = 0
+    bi_zero : exists st0, sts b 0 = Some st0 /\ In start_item st0 /\ forall it, In it st0 -> it_dot it = 0;
+    bi_sym : forall t, In t (b_transitions b) -> sym_ok b t
   }.
 
   Definition Cov (b : builder) (ex : list nat) : Prop :=
@@ -84,6 +89,11 @@ Section Inv.
     destruct (He _ _ Hf) as (sf2 & Hf2 & _ & Hcf & _). destruct (He _ _ Ht) as (st2 & Ht2 & _ & Hct & _).
     exists sf2, st2. split; [exact Hf2|]. split; [exact Ht2|]. split; [exact Hz|].
     intros c. rewrite <- (tcore_stable cx sf sf2 (tr_symbol t) c Hcf). rewrite <- Hc. symmetry. apply Hct.
+  Qed.
+
+  Lemma sym_ok_ext b b' t : ext b b' -> sym_ok b t -> sym_ok b' t.
+  Proof.
+    intros (He & _) (sf & it & Hs & Hit & Hn). destruct (He _ _ Hs) as (sf' & Hs' & Hinc & _). exists sf', it. auto.
   Qed.
 
   Lemma cov_item_ext b b' i it x : ext b b' -> cov_item b i it x -> cov_item b' i it x.
@@ -143,7 +153,7 @@ Section Inv.
     (forall k, length (b_states b) <= k -> k < length (b_states b') -> In k (b_queue b')).
   Proof.
     intros HB HT Hwf (k & Hk & Hkd) H. unfold enqueue_state_if_needed in H.
-    destruct HB as [Hst Hq Htr Hdet Huniq (st0 & Hs0 & Hstart & Hdot0)].
+    destruct HB as [Hst Hq Htr Hdet Huniq (st0 & Hs0 & Hstart & Hdot0) Hsym].
     assert (Hnot0 : forall s0, sts b 0 = Some s0 -> ~ same_cores target s0).
     { intros s0 Hs Hsc. unfold sts in *. rewrite Hs0 in Hs. injection Hs as <-.
       assert (Hin : In (core_of k) (map core_of st0)) by (apply Hsc, in_map, Hk).
@@ -191,6 +201,7 @@ Section Inv.
           -- injection H2 as <-. apply (Huniq i1 j0 s1 e H1 Hn). eapply same_cores_trans; [exact Hc12|apply same_cores_sym, Hcores].
           -- apply (Huniq i1 i2 s1 s2 H1 H2 Hc12).
         * exists st0. rewrite Hnth. destruct (Nat.eqb_spec j0 0) as [E|_]; [contradiction|]. auto.
+        * intros t Ht. eapply sym_ok_ext; [exact Hext|apply Hsym, Ht].
       + exists st'. unfold sts; cbn [b_states]. rewrite Hnth, Nat.eqb_refl. split; [reflexivity|].
         split; [intros y Hy; apply Hin'; right; exact Hy|]. eapply same_cores_trans; eauto.
       + cbn [b_queue]. intros i Hi. destruct added; [apply in_app_or in Hi as [Hi|[<-|[]]]; auto|auto].
@@ -222,6 +233,7 @@ Section Inv.
           -- injection H2 as <-. exfalso. apply (Hnone i1 s1 H1). apply same_cores_sym, Hc12.
           -- apply (Huniq i1 i2 s1 s2 H1 H2 Hc12).
         * exists st0. rewrite Hnth. destruct (Nat.eqb_spec 0 n) as [E|_]; [congruence|]. auto.
+        * intros t Ht. eapply sym_ok_ext; [exact Hext|apply Hsym, Ht].
       + exists target. unfold sts; cbn [b_states]. rewrite Hnth, Nat.eqb_refl. split; [reflexivity|]. split; [intros y Hy; exact Hy|apply same_cores_refl].
       + cbn [b_queue]. intros i Hi. apply in_app_or in Hi as [Hi|[<-|[]]]; auto.
       + cbn [b_states b_queue]. rewrite app_length. cbn [length]. split; [lia|]. intros k0 H1 H2.
@@ -262,7 +274,7 @@ Section Inv.
       symmetry. apply Hcj. }
     split; [exact Hext|]. split; [|split].
     - (* BInv b2 *)
-      destruct HB1 as [Hst1 Hqq1 Htrr1 Hdet1 Huniq1 Hz1]. split.
+      destruct HB1 as [Hst1 Hqq1 Htrr1 Hdet1 Huniq1 Hz1 Hsym1]. split.
       + exact Hst1.
       + exact Hqq1.
       + intros t [<-|Ht]; [exact Ht0|]. destruct (Htrr1 t Ht) as (sf & st' & A & B & C & D). exists sf, st'. auto.
@@ -281,6 +293,8 @@ Section Inv.
         * apply Hdet1; auto.
       + exact Huniq1.
       + exact Hz1.
+      + intros t [<-|Ht]; [|destruct (Hsym1 t Ht) as (sf & it & A & B & C); exists sf, it; auto].
+        exists sti1, it0. unfold t0. cbn [tr_from tr_symbol]. split; [exact Hsi1|]. split; [apply Hinci, Hit0|exact Hn0].
     - (* Cov b2 [i] *)
       intros k Hk1 Hk2 Hk3. cbn [b_states b_queue] in Hk1, Hk2.
       destruct (Nat.lt_ge_cases k (length (b_states b))) as [Hlt|Hge].
@@ -328,7 +342,7 @@ Section Inv.
       apply bind_ok in H as (syms & Hsy & H). apply bind_ok in H as (b1 & Ht & H).
       set (b0 := {| b_states := b_states b; b_transitions := b_transitions b; b_queue := q |}) in *.
       assert (HB0 : BInv b0).
-      { destruct HB as [A B C D E F]. split; auto. intros k Hk. apply B. rewrite Eq. right. exact Hk. }
+      { destruct HB as [A B C D E F G]. split; auto. intros k Hk. apply B. rewrite Eq. right. exact Hk. }
       assert (HC0 : Cov b0 [i]).
       { intros k Hk1 Hk2 Hk3. cbn [b_states b_queue] in *.
         assert (Hc : cov_at b k). { apply HC; [exact Hk1| |intros []]. rewrite Eq. intros [<-|Hin]; [apply Hk3; left; reflexivity|contradiction]. }
@@ -346,18 +360,17 @@ Section Inv.
 
   (* ---------- the whole construction ---------- *)
 
-  Theorem build_spec fuel start b :
+  Lemma initial_builder_inv start :
     get_closure cfuel cx [start_item] = Ok start ->
-    build_loop fuel cfuel cx {| b_states := [start]; b_transitions := []; b_queue := [0] |} = Ok b ->
-    BInv b /\ Cov b [] /\ b_queue b = [].
+    BInv {| b_states := [start]; b_transitions := []; b_queue := [0] |} /\
+    Cov {| b_states := [start]; b_transitions := []; b_queue := [0] |} [].
   Proof.
-    intros Hs H. destruct (get_closure_spec cx cfuel _ _ Hs) as (Hsorted & Hreach).
+    intros Hs. destruct (get_closure_spec cx cfuel _ _ Hs) as (Hsorted & Hreach).
     assert (Hwf0 : item_wf start_item).
     { split; [|exact I]. exists [SymN (cx_start cx)]. split; [reflexivity|cbn; lia]. }
     assert (Hdot : forall it, In it start -> it_dot it = 0).
     { intros it Hit. apply Hreach in Hit. destruct Hit as [it [<-|[]]|jt it _ Hi]; [reflexivity|apply (implied_by_wf cx jt it Hi)]. }
-    apply (build_loop_spec fuel {| b_states := [start]; b_transitions := []; b_queue := [0] |} b);
-      [|intros k Hk1 Hk2; exfalso; cbn in Hk1, Hk2; apply Hk2; left; lia|exact H].
+    split; [|intros k Hk1 Hk2; exfalso; cbn in Hk1, Hk2; apply Hk2; left; lia].
     split; unfold sts; cbn [b_states b_transitions b_queue].
     - intros i st Hst. destruct i as [|i]; [|destruct i; discriminate]. injection Hst as <-.
       split; [exact Hsorted|]. split; [|split].
@@ -370,5 +383,15 @@ Section Inv.
     - intros t1 t2 [].
     - intros i j si sj Hi Hj _. destruct i as [|[|i]]; try discriminate. destruct j as [|[|j]]; try discriminate. reflexivity.
     - exists start. split; [reflexivity|]. split; [apply Hreach, reach_in; left; reflexivity|exact Hdot].
+    - intros t [].
+  Qed.
+
+  Theorem build_spec fuel start b :
+    get_closure cfuel cx [start_item] = Ok start ->
+    build_loop fuel cfuel cx {| b_states := [start]; b_transitions := []; b_queue := [0] |} = Ok b ->
+    BInv b /\ Cov b [] /\ b_queue b = [].
+  Proof.
+    intros Hs H. destruct (initial_builder_inv start Hs) as (HB & HC).
+    apply (build_loop_spec fuel _ b HB HC H).
   Qed.
 End Inv.
